@@ -246,6 +246,28 @@ class Gen:
         if not fs: lines.append("    pass")
         self.pool.add(lines)
         return self._obj_node("dataclass", n, fs, decl=lines)
+    def g_plain(self, d):
+        """raw dataclass of check-only fields, most of them defaulted (literal defaults and default factories): the class
+        `SimpleObjectMethod` + `FieldsConstructor` serve when dataclass constructors are overridden"""
+        n = self.pool.fresh("C"); fs = []
+        for nm in self.rnd.sample(NAMES, self.rnd.randint(1, 3)):
+            kind = self.rnd.choice(["int", "str", "bool", "list", "optstr"])
+            if kind == "list":
+                t = self.g_int(0); t = Node("list", ["list", t.lean], "List[int]", [t])
+                f = dict(name=nm, alias=nm, required=False, fbod=False, ty=t, dflt="list", dflt_src="field(default_factory=list)")
+            elif kind == "optstr":
+                t = Node("optional", ["union", [["str"], ["none"]]], "Optional[str]", [self.g_str(0)])
+                f = dict(name=nm, alias=nm, required=False, fbod=False, ty=t, dflt=["n"], dflt_src="None")
+            else:
+                t = {"int": self.g_int, "str": self.g_str, "bool": self.g_bool}[kind](0)
+                req = self.rnd.random() < 0.3
+                dv = {"int": (lit_proto(7), "7"), "str": (lit_proto("dv"), "'dv'"), "bool": (lit_proto(True), "True")}[kind]
+                f = dict(name=nm, alias=nm, required=req, fbod=False, ty=t, dflt=None if req else dv[0], dflt_src=None if req else dv[1])
+            fs.append(f)
+        fs.sort(key=lambda f: not f["required"])
+        lines = ["@dataclass", f"class {n}:"] + [f"    {f['name']}: {f['ty'].py}" + ("" if f["required"] else f" = {f['dflt_src']}") for f in fs]
+        self.pool.add(lines)
+        return self._obj_node("dataclass", n, fs, decl=lines)
     def g_aggregate(self, d):
         """dataclass with aggregate fields - an additional-`properties` mapping, a `properties(pattern=...)` mapping, or a
         flattened dataclass: outside the Lean model (tag `aggregate`), inside the model-free checks"""
